@@ -269,8 +269,8 @@ def _tiny_css(nmax):
 
 def run(tier, seed):
     quick = tier == 'quick'
-    ntrees, size = (300, 12) if quick else (4000, 40)
-    ncss = 300 if quick else 2000
+    ntrees, size = (300, 12) if quick else (3000, 40)
+    ncss = 300 if quick else 1500
     out = []
 
     c = Clause('html-actions', 'B',
